@@ -813,16 +813,20 @@ static size_t copy_chars (UCHAR* from, UCHAR* to, size_t count, interactive_t* i
               ip->state = TS_WONT;
               break;
             case BREAK:	/* Send back a break character. */
+              ip->state = TS_DATA;	/* two-byte command is complete */
               add_message (ip->ob, telnet_break_response);
               flush_message (ip);
               break;
             case IP:		/* Send back an interupt process character. */
+              ip->state = TS_DATA;
               add_message (ip->ob, telnet_interrupt_response);
               break;
             case AYT:		/* Are you there signal.  Yep we are. */
+              ip->state = TS_DATA;
               add_vmessage (ip->ob, "\n[%s-%s] \n", PACKAGE, VERSION);
               break;
             case AO:		/* Abort output. Do a telnet sync operation. */
+              ip->state = TS_DATA;
               ip->out_of_band = MSG_OOB;
               add_message (ip->ob, telnet_abort_response);
               flush_message (ip);
